@@ -229,7 +229,7 @@ class Check(PropertyCheck):
         while True:
             r = rng.random()
             if r < 0.6: yield self.gen_render(rng, views)
-            elif r < (0.603 if tier == "quick" else 0.61): yield self.gen_big_dns(rng)
+            elif r < (0.603 if tier == "quick" else 0.604): yield self.gen_big_dns(rng)
             else: yield self.gen_dns(rng)
 
     # ---------------------------------------------------------------- implementation runner
